@@ -222,7 +222,9 @@ def file_flags_to_mode(flags):
     Used by Process.open_files().
     """
     modes_map = {os.O_RDONLY: 'r', os.O_WRONLY: 'w', os.O_RDWR: 'w+'}
-    mode = modes_map[flags & (os.O_RDONLY | os.O_WRONLY | os.O_RDWR)]
+    # Linux also has the nonstandard access mode 3 (O_WRONLY | O_RDWR): the
+    # file was checked for read and write permission, see open(2).
+    mode = modes_map.get(flags & (os.O_RDONLY | os.O_WRONLY | os.O_RDWR), 'w+')
     if flags & os.O_APPEND:
         mode = mode.replace('w', 'a', 1)
     mode = mode.replace('w+', 'r+')
